@@ -31,20 +31,24 @@ T4 = ('Ws DEFINITIONS AUTOMATIC TAGS ::= BEGIN\nW ::= SEQUENCE { a INTEGER -- , 
       ', s IA5String DEFAULT "x y" }\nEND\n')
 T4W = ('Ws DEFINITIONS AUTOMATIC TAGS ::= BEGIN\nW ::= SEQUENCE { a INTEGER --\n , b BOOLEAN '
        ', s IA5String DEFAULT "x  y" }\nEND\n')
+# one type name defined (differently) in three modules: it is in none of them reachable by bare name
+T5 = 'Dup1 DEFINITIONS ::= BEGIN\nX ::= INTEGER\nY ::= BOOLEAN\nEND\n'
+T6 = 'Dup2 DEFINITIONS ::= BEGIN\nX ::= BOOLEAN\nY ::= INTEGER\nEND\n'
+T7 = 'Dup3 DEFINITIONS ::= BEGIN\nX ::= REAL\nEND\n'
 assert T4.split() == T4W.split() and sorted(T1D) == sorted(T1E) and len(T1) == len(T1C)
 POOL = {'T1': T1, 'T1B': T1B, 'T2': T2, 'T3': T3, 'T1-head': T1[:K], 'T1-tail': T1[K:], 'EMPTY': '',
-        'T1C': T1C, 'T1D': T1D, 'T1E': T1E, 'T1F': T1F, 'T2B': T2B, 'T4': T4, 'T4W': T4W}
+        'T1C': T1C, 'T1D': T1D, 'T1E': T1E, 'T1F': T1F, 'T2B': T2B, 'T4': T4, 'T4W': T4W, 'T5': T5, 'T6': T6, 'T7': T7}
 TWINS = {'T1': ['T1B', 'T1C', 'T1F'], 'T1B': ['T1'], 'T1C': ['T1'], 'T1D': ['T1E'], 'T1E': ['T1D'], 'T1F': ['T1'],
          'T2': ['T2B', 'T1'], 'T2B': ['T2'], 'T3': ['T2'], 'T4': ['T4W'], 'T4W': ['T4']}
 WRITE_POOL = ['T1', 'T1', 'T1B', 'T2', 'T2', 'T3', 'T3', 'T1-head', 'T1-tail', 'EMPTY', 'T1C', 'T1D', 'T1E', 'T1F', 'T2B',
-              'T4', 'T4', 'T4W']
+              'T4', 'T4', 'T4W', 'T5', 'T6', 'T7']
 ADB = {('Fie-Mod', 'Fie', 'fum'): {0: 'NULL', 1: 'INTEGER'}}
 ADB2 = {('Fie-Mod', 'Fie', 'fum'): {0: 'BOOLEAN', 1: 'NULL'}}
 CODECS = ['ber', 'der', 'per', 'uper', 'oer', 'jer', 'xer', 'gser']
 PROBES = [('A', {'n': 3}), ('A', {'e': 'x', 'n': 7}), ('A', {'e': 0, 'n': 0}), ('A', {'n': 200}),
           ('E', 'green'), ('E', 5), ('B', [1, -2]), ('C', 'off'), ('C', 1),
           ('A', {'n': 9}), ('A', {'n': 17}), ('A', {'n': 71}), ('E', 'greeN'), ('C', 'ofg'),
-          ('W', {'a': 1}), ('W', {'a': 1, 'b': True}),
+          ('W', {'a': 1}), ('W', {'a': 1, 'b': True}), ('X', 5), ('X', True), ('X', 1.5), ('Y', 5), ('Y', True),
           ('Fie', {'bar': 0, 'fum': None}), ('Fie', {'bar': 1, 'fum': 5}), ('Fie', {'bar': 0, 'fum': True}),
           ('Fie', {'bar': 1, 'fum': b'\x05\x00'})]
 
@@ -330,6 +334,18 @@ class C17(Check):
                                         ['compile', ['f1', 'f2'], [a, b], codec, ne, None],
                                         ['compile', ['f2', 'f1'], [b, a], codec, ne, None],
                                         ['compile', ['f1', 'f2'], [a, b], codec, ne, None]], 'pool': POOL}
+                    rec.cases += 1
+                    rec.cls('directed-cases')
+                    self.replay(case, rec, count=True)
+                    rec.nt(case['history'])
+            if shard['directed'] == 0:
+                # a type name defined in two and in three modules, compiled twice (the second call is a cache hit)
+                for files, texts in ((['f1', 'f2', 'f3'], ['T5', 'T6', 'T7']), (['f1', 'f2'], ['T5', 'T6']),
+                                     (['f3', 'f1'], ['T7', 'T5'])):
+                    codec = CODECS[(seed + len(files)) % 8]
+                    hist = [['write', 'f1', 'T5'], ['write', 'f2', 'T6'], ['write', 'f3', 'T7']]
+                    hist += [['compile', files, texts, codec, False, None]] * 2
+                    case = {'history': hist, 'pool': POOL}
                     rec.cases += 1
                     rec.cls('directed-cases')
                     self.replay(case, rec, count=True)
